@@ -489,10 +489,10 @@ def incrByFloatA (key : Bytes) (delta : F64) : DsStr.S → Int → Act := fun v 
 
 theorem incrByFloat_eq (s : MState) (now : Int) (k : Bytes) (delta : F64) :
     Api.incrByFloat s now k delta =
-      writeCmd (some .strNil) .unit (actOn strOf (incrByFloatA k delta)) s now k := by
+      writeCmd (some (.str [])) .unit (actOn strOf (incrByFloatA k delta)) s now k := by
   unfold Api.incrByFloat writeCmd
-  have hok := writeKey_some_ok s now k .strNil
-  cases hw : writeKey s now k (some .strNil) with
+  have hok := writeKey_some_ok s now k (.str [])
+  cases hw : writeKey s now k (some (.str [])) with
   | mk s1 ok =>
     rw [hw] at hok
     simp only at hok
